@@ -1,7 +1,7 @@
 import CoapVerif.Model.WsReader
 import CoapVerif.Lemmas.Parse
 /- C05, WebSocket part: what is proved about the WS reader model and the WS specification.
-   (The full correspondence M_ws = S_ws for every segmentation is NOT proved; see Props/C05.lean.) -/
+   (Older one-step lemmas; the full correspondence M_ws = S_ws is in Lemmas/StreamWs{Defs,Hs,Frames,Session,Feed}.) -/
 namespace Coap
 open Coap.M Coap.M.Ws Coap.Spec.Stream.Ws
 
@@ -62,7 +62,14 @@ theorem lfIndex_none (l : Bytes) (h : noLF l) : lfIndex l = none := by
   | cons b r ih =>
     have hb : b ≠ 10 := h b (by simp)
     have hr : noLF r := fun x hx => h x (by simp [hx])
-    simp only [lfIndex, if_neg hb, ih hr]; rfl
+    simp only [lfIndex, if_neg hb, ih hr]
+    split <;> rfl
+
+/-- strchr(http_hdr, LF) in the model and the line end of the specification (D20) are the same function -/
+theorem lfIdx_eq (l : Bytes) : lfIdx l = lfIndex l := by
+  induction l with
+  | nil => rfl
+  | cons b r ih => simp only [lfIdx, lfIndex, ih]
 
 theorem noLF_append {a b : Bytes} (ha : noLF a) (hb : noLF b) : noLF (a ++ b) := by
   intro x hx
